@@ -1,0 +1,28 @@
+//go:build verif
+
+package secp256k1
+
+import "unsafe"
+
+// Verification hooks (see verif_hooks.go): thin forwarders, only built with
+// `-tags verif`.
+
+// VerifLookupProjectiveAt runs lookupProjectivePoint on a table located at
+// caller-provided memory (the harness places it across a protected page
+// boundary to observe which entries the lookup touches).
+func VerifLookupProjectiveAt(tbl unsafe.Pointer, idx uint64) {
+	var out Point
+	lookupProjectivePoint((*projectivePointMultTable)(tbl), &out, idx)
+}
+
+// VerifLookupAffineAt is the affine counterpart of VerifLookupProjectiveAt.
+func VerifLookupAffineAt(tbl unsafe.Pointer, idx uint64) {
+	var out affinePoint
+	lookupAffinePoint((*affinePointMultTable)(tbl), &out, idx)
+}
+
+// VerifTableLayout returns the sizes of the two lookup tables and of their
+// entries.
+func VerifTableLayout() (projTable, projEntry, affineTable, affineEntry uintptr) {
+	return unsafe.Sizeof(projectivePointMultTable{}), unsafe.Sizeof(Point{}), unsafe.Sizeof(affinePointMultTable{}), unsafe.Sizeof(affinePoint{})
+}
